@@ -143,6 +143,81 @@ func suiteScript(tier string, seed uint64, model string) *Report {
 			cases = append(cases, cs{&Eqn{Kind: "bin", Op: op, A: &Eqn{Kind: "p", Path: []Frag{{Kind: "A"}, {Kind: "c", Key: "l"}}}, B: &Eqn{Kind: "N"}}, map[string]any{"l": a}})
 		}
 	}
+	// numeric grid: every comparison and arithmetic operator on int x float pairs around zero and
+	// around integral values, both ways round
+	pl := func(k string) *Eqn { return &Eqn{Kind: "p", Path: []Frag{{Kind: "A"}, {Kind: "c", Key: k}}} }
+	ints := []int64{-3, -2, -1, 0, 1, 2, 3}
+	floats := []float64{-3, -2.5, -2, -1.5, -0.5, 0, 0.5, 1.5, 2, 2.5, 3}
+	for _, op := range []string{"eq", "neq", "lt", "gt", "lte", "gte", "add", "sub", "mul", "div"} {
+		for _, i := range ints {
+			for _, f := range floats {
+				for _, sw := range []bool{false, true} {
+					var a, b any = i, f
+					if sw {
+						a, b = f, i
+					}
+					e := &Eqn{Kind: "bin", Op: op, A: pl("l"), B: pl("r")}
+					if op == "add" || op == "sub" || op == "mul" || op == "div" {
+						e = &Eqn{Kind: "bin", Op: "gte", A: e, B: &Eqn{Kind: "v", Const: float64(0.25)}}
+					}
+					cases = append(cases, cs{e, map[string]any{"l": a, "r": b}})
+				}
+			}
+		}
+	}
+	// several values on both sides: exactly one (i,j) pair satisfies the comparison
+	for _, op := range []string{"eq", "gt", "lt", "neq"} {
+		for la := 2; la <= 3; la++ {
+			for lb := 2; lb <= 3; lb++ {
+				for i := 0; i < la; i++ {
+					for j := 0; j < lb; j++ {
+						av := make([]any, la)
+						bv := make([]any, lb)
+						for k := range av {
+							av[k] = int64(10 + k)
+						}
+						for k := range bv {
+							bv[k] = int64(20 + k)
+						}
+						switch op {
+						case "eq":
+							bv[j] = av[i]
+						case "gt":
+							for k := range bv {
+								bv[k] = int64(100)
+							}
+							av[i], bv[j] = int64(50), int64(40)
+						case "lt":
+							for k := range av {
+								av[k] = int64(100)
+							}
+							av[i], bv[j] = int64(1), int64(2)
+						case "neq":
+							for k := range av {
+								av[k] = int64(7)
+							}
+							for k := range bv {
+								bv[k] = int64(7)
+							}
+							if i == 0 {
+								av[i] = int64(8)
+							} else {
+								bv[j] = int64(8)
+							}
+						}
+						e := &Eqn{Kind: "bin", Op: op,
+							A: &Eqn{Kind: "p", Path: []Frag{{Kind: "A"}, {Kind: "c", Key: "a"}, {Kind: "W"}}},
+							B: &Eqn{Kind: "p", Path: []Frag{{Kind: "A"}, {Kind: "c", Key: "b"}, {Kind: "W"}}}}
+						cases = append(cases, cs{e, map[string]any{"a": av, "b": bv}})
+						// three multi-valued operands
+						e3 := &Eqn{Kind: "bin", Op: "and", A: e, B: &Eqn{Kind: "bin", Op: "eq",
+							A: &Eqn{Kind: "p", Path: []Frag{{Kind: "A"}, {Kind: "c", Key: "c"}, {Kind: "W"}}}, B: &Eqn{Kind: "v", Const: int64(j)}}}
+						cases = append(cases, cs{e3, map[string]any{"a": av, "b": bv, "c": []any{int64(0), int64(1), int64(2)}}})
+					}
+				}
+			}
+		}
+	}
 	matrixN := len(cases)
 	for i := 0; i < n; i++ {
 		cases = append(cases, cs{genEqn(r, 1, 2), genTree(r, 1+r.Intn(3))})
